@@ -69,6 +69,9 @@ func report(eng *Engine, prop, tier string, seed int, start time.Time, runs []*R
 	var vanished []string
 	if *flagFn == "" {
 		for _, n := range expected {
+			if strings.Contains(n, "/safe:") {
+				continue // a panic-freedom obligation that no longer exists has nothing left to check
+			}
 			if !have[n] {
 				vanished = append(vanished, n)
 			}
